@@ -4,6 +4,8 @@ import (
 	"fmt"
 	"go/token"
 	"go/types"
+	"sort"
+	"strings"
 
 	"fv/internal/core"
 
@@ -132,12 +134,73 @@ func runC11(c *core.Ctx) {
 					}
 				}
 			}
+			// state carried from one entry to the next that is both consulted and updated makes the outcome for an entry
+			// depend on which entries came before it
+			if cs := carriedTestAndSet(fn, l); cs != "" {
+				c.Report("lint.maporder", key+"|carried", firstPos(l.header), "a range over a map in "+core.FnName(fn)+" consults and updates "+cs+", which lives across iterations: what is computed for one entry depends on the entries Go's randomised map order happened to visit before it")
+			} else {
+				c.Discharge("lint.maporder", key+"|carried", firstPos(l.header), "no map created outside the loop is both tested and updated inside it")
+			}
 			if !early {
 				c.Discharge("lint.maporder", key, firstPos(l.header), "no early exit: every entry is visited, only the order of appends varies")
 			} else if isSearchLoop(fn, l) {
 				c.Discharge("lint.maporder", key, firstPos(l.header), "early exit of a pure search (the result is a boolean/any-match, the same whichever matching entry is found first)")
 			} else {
 				c.Report("lint.maporder", key, where, "a range over a map in "+core.FnName(fn)+" leaves the loop early: which entry is handled (and so which diagnostics are produced) depends on Go's randomised map iteration order")
+			}
+		}
+	}
+	// ---- scope entry siblings: every way of entering a subroutine scope resets the same per-subroutine state
+	{
+		type entry struct {
+			fn    *ssa.Function
+			calls map[string]bool
+		}
+		var entries []entry
+		union := map[string]bool{}
+		for _, fn := range prog.ModuleFuncs("linter/context") {
+			if fn.Signature.Recv() == nil || core.NamedTypeName(derefType(fn.Signature.Recv().Type())) != "Context" {
+				continue
+			}
+			setsMode := false
+			calls := map[string]bool{}
+			for _, b := range fn.Blocks {
+				for _, in := range b.Instrs {
+					if st, ok := in.(*ssa.Store); ok {
+						if fa, ok := st.Addr.(*ssa.FieldAddr); ok && core.FieldOf(fa) != nil && core.FieldOf(fa).Name() == "curMode" {
+							if _, isP := st.Val.(*ssa.Parameter); isP {
+								setsMode = true
+							}
+						}
+					}
+					if cal := core.StaticCallee(in); cal != nil && cal.Signature.Recv() != nil && core.NamedTypeName(derefType(cal.Signature.Recv().Type())) == "Context" {
+						calls[cal.Name()] = true
+					}
+				}
+			}
+			if setsMode {
+				entries = append(entries, entry{fn, calls})
+				for n := range calls {
+					union[n] = true
+				}
+			}
+		}
+		if len(entries) < 2 {
+			c.MissingAnchor("lint.scopeentry", "linter/context scope entry functions (stores of curMode from a parameter)")
+		}
+		for _, e := range entries {
+			var missing []string
+			for n := range union {
+				if !e.calls[n] {
+					missing = append(missing, n)
+				}
+			}
+			sort.Strings(missing)
+			key := core.FnName(e.fn)
+			if len(missing) == 0 {
+				c.Discharge("lint.scopeentry", key, e.fn.Pos(), "resets the same per-subroutine state as its siblings")
+			} else {
+				c.Report("lint.scopeentry", key, e.fn.Pos(), fmt.Sprintf("%s enters a subroutine scope without %s, which the other scope entry points call: state of the previously linted subroutine leaks in, so the diagnostics depend on the order of the declarations", key, strings.Join(missing, ", ")))
 			}
 		}
 	}
@@ -270,4 +333,131 @@ func isLoadedOrParam(v ssa.Value) bool {
 		return true
 	}
 	return false
+}
+
+// carriedTestAndSet: a map allocated outside loop l (in fn) that inside the loop body — directly or in closures
+// created there — is both looked up to decide a branch and updated. Returns a description or "".
+func carriedTestAndSet(fn *ssa.Function, l loopInfo) string {
+	isMapT := func(t types.Type) bool { _, ok := t.Underlying().(*types.Map); return ok }
+	// candidate roots: map values or cells of map type defined outside the loop body
+	outside := func(v ssa.Value) bool {
+		in, ok := v.(ssa.Instruction)
+		if !ok {
+			return false
+		}
+		return in.Block() != nil && in.Parent() == fn && !l.body[in.Block()]
+	}
+	type usage struct{ test, update bool }
+	use := map[ssa.Value]*usage{}
+	note := func(root ssa.Value) *usage {
+		if use[root] == nil {
+			use[root] = &usage{}
+		}
+		return use[root]
+	}
+	// resolve a map-typed value to its root (outside definition), following loads of cells and free variables
+	var rootOf func(f *ssa.Function, v ssa.Value, bind map[*ssa.FreeVar]ssa.Value, depth int) ssa.Value
+	rootOf = func(f *ssa.Function, v ssa.Value, bind map[*ssa.FreeVar]ssa.Value, depth int) ssa.Value {
+		if depth > 6 {
+			return nil
+		}
+		switch t := v.(type) {
+		case *ssa.UnOp:
+			if t.Op == token.MUL {
+				return rootOf(f, t.X, bind, depth+1)
+			}
+		case *ssa.FreeVar:
+			if b, ok := bind[t]; ok {
+				return b
+			}
+		case *ssa.MakeMap, *ssa.Alloc:
+			if f == fn && outside(v) {
+				return v
+			}
+		case *ssa.Phi:
+			for _, e := range t.Edges {
+				if r := rootOf(f, e, bind, depth+1); r != nil {
+					return r
+				}
+			}
+		}
+		return nil
+	}
+	var scan func(f *ssa.Function, blocks func(b *ssa.BasicBlock) bool, bind map[*ssa.FreeVar]ssa.Value, depth int)
+	scan = func(f *ssa.Function, blocks func(b *ssa.BasicBlock) bool, bind map[*ssa.FreeVar]ssa.Value, depth int) {
+		if depth > 4 {
+			return
+		}
+		for _, b := range f.Blocks {
+			if !blocks(b) {
+				continue
+			}
+			for _, in := range b.Instrs {
+				switch t := in.(type) {
+				case *ssa.Lookup:
+					if !isMapT(t.X.Type()) {
+						continue
+					}
+					if r := rootOf(f, t.X, bind, 0); r != nil {
+						// does the lookup decide a branch?
+						decides := false
+						var follow func(v ssa.Value, d int)
+						follow = func(v ssa.Value, d int) {
+							if d > 4 || v.Referrers() == nil {
+								return
+							}
+							for _, ref := range *v.Referrers() {
+								switch rt := ref.(type) {
+								case *ssa.If:
+									decides = true
+								case *ssa.Extract:
+									follow(rt, d+1)
+								case *ssa.UnOp:
+									follow(rt, d+1)
+								case *ssa.BinOp:
+									follow(rt, d+1)
+								case *ssa.Phi:
+									follow(rt, d+1)
+								}
+							}
+						}
+						follow(t, 0)
+						if decides {
+							note(r).test = true
+						}
+					}
+				case *ssa.MapUpdate:
+					if r := rootOf(f, t.Map, bind, 0); r != nil {
+						note(r).update = true
+					}
+				case *ssa.MakeClosure:
+					cf := t.Fn.(*ssa.Function)
+					nb := map[*ssa.FreeVar]ssa.Value{}
+					for i, fv := range cf.FreeVars {
+						if i < len(t.Bindings) {
+							if r := rootOf(f, t.Bindings[i], bind, 0); r != nil {
+								nb[fv] = r
+							} else if al, ok := t.Bindings[i].(*ssa.Alloc); ok && f == fn && outside(al) {
+								nb[fv] = al
+							}
+						}
+					}
+					if len(nb) > 0 {
+						scan(cf, func(*ssa.BasicBlock) bool { return true }, nb, depth+1)
+					}
+				}
+			}
+		}
+	}
+	scan(fn, func(b *ssa.BasicBlock) bool { return l.body[b] }, map[*ssa.FreeVar]ssa.Value{}, 0)
+	for r, u := range use {
+		if u.test && u.update {
+			name := r.Name()
+			if al, ok := r.(*ssa.Alloc); ok && al.Comment != "" {
+				name = al.Comment
+			}
+			return "the map `" + name + "`"
+		}
+	}
+	return ""
 }
